@@ -91,7 +91,7 @@ fn main() {
             }
             pgvcore::util::install_panic_hook();
             let mut rep = Reporter::new(&ctx);
-            let extra = Json::obj();
+            let mut extra = Json::obj();
             match ctx.prop.as_str() {
                 "C01" => props::c01::run(&ctx, &mut rep),
                 "C02" => props::c02::run(&ctx, &mut rep),
@@ -108,6 +108,11 @@ fn main() {
                 "C12" => props::c12::run(&ctx, &mut rep),
                 "C13" => props::c13::run(&ctx, &mut rep),
                 "C15" => props::c15::run(&ctx, &mut rep),
+                "C16" => props::c16::run(&ctx, &mut rep),
+                "C19" => props::c19::run(&ctx, &mut rep),
+                "C18" => extra = props::c18::run(&ctx, &mut rep),
+                "C14" => extra = props::c14::run(&ctx, &mut rep),
+                "C20" => extra = props::c20::run(&ctx, &mut rep),
                 other => {
                     eprintln!("unknown property {other}");
                     std::process::exit(2);
